@@ -74,7 +74,16 @@ def matrix(dud, drv, base, R):
     k = 0
     for args, uses_prepare in SUBCOMMANDS:
         for where in ("root", "sub"):
-            for outcome in ("ok", "fail", "prelocked", "profile-unwritable", "trace-unwritable", "outside-target"):
+            for outcome in ("ok", "fail", "prelocked", "profile-unwritable", "trace-unwritable", "outside-target",
+                            "blocked-by-file", "missing-output", "exit-126"):
+                # failures for OTHER reasons than a broken index: a file in the way of checkout (EEXIST), a missing output at
+                # commit (ENOENT), a stage command that cannot be executed
+                if outcome == "blocked-by-file" and args[0] not in ("checkout", "pull"):
+                    continue
+                if outcome == "missing-output" and args[0] not in ("commit",):
+                    continue
+                if outcome == "exit-126" and args[0] not in ("run",):
+                    continue
                 if outcome.endswith("unwritable") and args[0] not in ("status", "commit", "run"):
                     continue
                 if outcome == "outside-target" and not any(x.endswith(".yaml") for x in args):
@@ -97,6 +106,16 @@ def matrix(dud, drv, base, R):
                     outside = os.path.join(os.path.dirname(root), "elsewhere-%d.yaml" % k)
                     open(outside, "w").write("outputs:\n  x.txt: {}\n")
                     a = [(os.path.relpath(outside, cwd) if k % 2 else outside) if x.endswith(".yaml") else x for x in a]
+                if outcome == "blocked-by-file":
+                    os.unlink(os.path.join(root, "out.txt"))
+                    open(os.path.join(root, "out.txt"), "w").write("something else in the way")
+                    if args[0] == "checkout" and k % 2:
+                        a = a + ["--copy"]
+                if outcome == "missing-output":
+                    os.unlink(os.path.join(root, "out.txt"))
+                if outcome == "exit-126":
+                    with open(os.path.join(root, "s.yaml"), "w") as f:
+                        f.write("command: exit 126\noutputs:\n  out.txt: {}\n")
                 if outcome == "fail":
                     # make the body fail: break the index (unknown stage file) — config commands do not read it
                     if args[0] == "config":
